@@ -96,8 +96,16 @@ def configs(tier):
             for first in range(8):
                 c.append({"kind": "enum", "n": 3, "gap": gap, "limit": None,
                           "first": first})
+        # CYP2D6-sized models: one configuration per test function, bounded time; what
+        # z3 does not certify within the budget is counted as unknown, not claimed
+        import importlib
+        import inspect
         for suite in ("test_cn_real", "test_major_real", "test_minor_real"):
-            c.append({"kind": "tee", "suite": suite})
+            mod = importlib.import_module("aldy.tests." + suite)
+            for name, fn in sorted(inspect.getmembers(mod, inspect.isfunction)):
+                if name.startswith("test_"):
+                    c.append({"kind": "tee", "suite": suite, "test": name,
+                              "budget": 600, "timeout_ms": 30000})
     return c
 
 
@@ -1063,7 +1071,8 @@ def run_tee(cfg):
     from aldy.common import script_path
 
     res = new_result(cfg)
-    eng = Engine(name="tee", timeout_ms=120000)
+    eng = Engine(name="tee", timeout_ms=cfg.get("timeout_ms", 120000))
+    T0 = time.time()
     log = []
     Tee = make_tee_class(log)
     saved = lpi.model
@@ -1074,7 +1083,7 @@ def run_tee(cfg):
     failures = []
     try:
         for name, fn in sorted(inspect.getmembers(mod, inspect.isfunction)):
-            if not name.startswith("test_"):
+            if not name.startswith("test_") or cfg.get("test", name) != name:
                 continue
             params = inspect.signature(fn).parameters
             kw = {}
@@ -1094,6 +1103,11 @@ def run_tee(cfg):
                 failures.append(f"{name}: {e}")
             for i, rec in enumerate(log[start:]):
                 label = f"{cfg['suite']}.{name}#{i}"
+                if time.time() - T0 > cfg.get("budget", 1e9):
+                    ob(res, f"{label}: not examined (time budget of the configuration)",
+                       "unknown")
+                    rec["twin"] = None
+                    continue
                 out = check_instance(eng, rec, res, label)
                 for what, status, mdl in out:
                     if status == "sat":
@@ -1216,7 +1230,7 @@ def replay_teegen(o):
 
 def replay_tee(o):
     """Re-run the single test under the tee and re-check (the instance is the replay)."""
-    res = run_tee({"kind": "tee", "suite": o["suite"]})
+    res = run_tee({"kind": "tee", "suite": o["suite"], "test": o["test"]})
     bad = [v for v in res["violations"]
            if v["replay"]["test"] == o["test"] and v["replay"]["what"] == o["what"]]
     return bool(bad), (bad[0]["what"] if bad else "not reproduced")
